@@ -76,6 +76,12 @@ def exprs(depth, rnd=None, cap=None):
                 for hk in range(len(hs)):
                     binds = [[S(names[0]), hs[hk]]] + [[S(n), hs[0]] for n in names[1:]]
                     nxt.append([S("handler-bind"), binds, [S("probe"), Q(S("h"))], e, [S("probe"), Q(S("after-h"))]])
+            # a whole expression of the family evaluated INSIDE a running handler (nested handler-bind that may
+            # re-catch a rethrow of the same error, nested ignore-errors ...), followed by rethrow / a value
+            L2 = lambda *body: [S("lambda"), [S("c"), S("&rest"), S("r")]] + list(body)
+            for raise_ in (LEAVES[0], LEAVES[3]):
+                nxt.append([S("handler-bind"), [[S("condition"), L2([S("probe"), Q(S("H3")), S("c")], e, [S("capture")], [S("rethrow")])], [S("internal-panic"), L2([S("probe"), Q(S("HP"))], e, [S("rethrow")])]], raise_])
+                nxt.append([S("handler-bind"), [[S("a"), L2(e, [S("probe"), Q(S("H4")), S("c"), S("r")], Q(S("v4")))]], raise_, [S("probe"), Q(S("after-h4"))]])
             # an error raised inside a handler body (one level of the family inside the handler)
             for inner in (LEAVES[0], LEAVES[3], LEAVES[4]):
                 nxt.append([S("handler-bind"), [[S("condition"), handlers(inner)[4]]], e, [S("probe"), Q(S("after-h"))]])
@@ -107,7 +113,17 @@ def _run(V, work, tier):
         d3 = exprs(3, rnd, cap=300)
         es = d2 + rnd.sample(d3, min(len(d3), 6000))
     else:
-        es = d1 + rnd.sample(d2, 1500)
+        # everything of depth 1, every depth-2 expression whose handler BODY contains a depth-1 expression
+        # (nested re-catch / rethrow shapes), and a seeded sample of the other depth-2 expressions
+        def nested_in_handler(e):
+            return isinstance(e, list) and len(e) > 1 and e[0] == S("handler-bind") and any(
+                isinstance(b[1], list) and len(b[1]) > 3 and isinstance(b[1][3], list) and b[1][3] and b[1][3][0] in (S("handler-bind"), S("ignore-errors"), S("progn")) or
+                isinstance(b[1], list) and len(b[1]) > 2 and isinstance(b[1][2], list) and b[1][2] and b[1][2][0] in (S("handler-bind"), S("ignore-errors"), S("progn"))
+                for b in e[1] if isinstance(b, list) and len(b) == 2)
+        rest2 = d2[len(d1):]
+        nest2 = [e for e in rest2 if nested_in_handler(e)]
+        other2 = [e for e in rest2 if not nested_in_handler(e)]
+        es = d1 + nest2 + rnd.sample(other2, 700)
     V.coverage["family_size"] = len(es)
     recs, drv = [], []
     for i, e in enumerate(es):
